@@ -384,16 +384,14 @@ def copyNonDefault (p : PlanIn) : List (Nat × Nat) → Option (List Nat × Nat)
 /-- number of bits of `org_num_range as u32`: `32 - leading_zeros` -/
 def numBits (n : Nat) : Nat := if n = 0 then 0 else Nat.log2 n + 1
 
-/-- the comparison closure of the "few unicodes" branch (after fix 2e8ae31: range containment) -/
-def uvsContainCmp (r : Nat × Nat) (u : Nat) : Ordering :=
-  if u < r.1 then .gt else if u > r.1 + r.2 then .lt else .eq
-
 /-- first branch of `copy_default_uvs` (`org_num_range > |unicodes| * num_bits`): walk the plan's
-unicodes; state (start, end), `INVALID` = none yet.  Emits (start, end - start as u8) records. -/
+unicodes; state (start, end), `INVALID` = none yet.  Emits (start, end - start as u8) records.
+The comparison closure (after fix 2e8ae31: range containment) is the one of read-fonts' default-UVS
+search, `Cmap.uvsRangeCmp`. -/
 def defaultFew (ranges : List (Nat × Nat)) : Nat → Nat → List Nat → List (Nat × Nat)
   | start, end_, [] => if start ≠ INVALID then [(start, (end_ - start) % 256)] else []
   | start, end_, u :: rest =>
-    match Layout.binarySearchBy ranges.length (fun i => uvsContainCmp (ranges[i]?.getD (0, 0)) u) with
+    match Layout.binarySearchBy ranges.length (fun i => uvsRangeCmp (ranges[i]?.getD (0, 0)) u) with
     | .err _ => defaultFew ranges start end_ rest
     | .ok _ =>
       if start = INVALID then defaultFew ranges u u rest
